@@ -77,7 +77,9 @@ Value& INTExpression::value(Context & ctx) const
     case Type::NUMERIC:
     {
       Numeric d = *val.numeric();
-      if (d < Numeric(INT64_MIN) || d > Numeric(INT64_MAX))
+      /* in range iff -2^63 <= d < 2^63 (Numeric(INT64_MAX) rounds up to 2^63,
+       * and NaN must not pass the test) */
+      if (!(d >= Numeric(INT64_MIN) && d < -Numeric(INT64_MIN)))
         throw RuntimeError(EXC_RT_OUT_OF_RANGE);
       v = Value(Integer(d));
       break;
@@ -88,7 +90,9 @@ Value& INTExpression::value(Context & ctx) const
     case Type::IMAGINARY:
     {
       Numeric d = val.imaginary()->a;
-      if (d < Numeric(INT64_MIN) || d > Numeric(INT64_MAX))
+      /* in range iff -2^63 <= d < 2^63 (Numeric(INT64_MAX) rounds up to 2^63,
+       * and NaN must not pass the test) */
+      if (!(d >= Numeric(INT64_MIN) && d < -Numeric(INT64_MIN)))
         throw RuntimeError(EXC_RT_OUT_OF_RANGE);
       v = Value(Integer(d));
       break;
